@@ -17,7 +17,7 @@
                                                                tuple x (single|tuple) = MUnsupp
      merge_so_object, filter_prop,
      merge_additional(_properties)        merge.rs:946-1096   [merge_obj, filter_prop, merge_ap]
-     Roughly                              merge.rs:1098-1231  [roughly]
+     Roughly                              merge.rs:1098-1245  [roughly]
      schema_value_validate                validate.rs:10-97   [value_validate]
 
    Outcomes: MOk s | MNever (Err(()) = "unsatisfiable") | MPanic (unimplemented!/unresolved reference)
@@ -285,9 +285,12 @@ Fixpoint roughly (fuel : nat) (a b : schema) {struct fuel} : bool :=
               else negb (is_none allo' && is_none anyo' && is_none oneo' && is_none no')
                    && rol allo allo' && rol anyo anyo' && rol oneo oneo' && ro no no')
           && numv_eqb nv nv' && strv_eqb sv sv'
-          && (* roughly_array: only `items` is compared *)
+          && (* roughly_array: every keyword is compared (since fix 884aa7b; before it only `items`);
+                `contains` is not represented in Spec/Schema.v *)
              (if arr_absent ik ai mni mxi uq then arr_absent ik' ai' mni' mxi' uq'
-              else negb (arr_absent ik' ai' mni' mxi' uq') && ik_eqb ik ik' && rl items items')
+              else negb (arr_absent ik' ai' mni' mxi' uq')
+                   && opt_eqb N.eqb mxi mxi' && opt_eqb N.eqb mni mni' && Bool.eqb uq uq' && ro ai ai'
+                   && ik_eqb ik ik' && rl items items')
           && (* roughly_object *)
              (if obj_absent props req ap mnp mxp then obj_absent props' req' ap' mnp' mxp'
               else negb (obj_absent props' req' ap' mnp' mxp')
